@@ -1,0 +1,7 @@
+//go:build !verif
+
+package entropy
+
+func verifNormEnter(freqs []int, totalFreq, scale int) []int { return nil }
+
+func verifNormExit(in, freqs, alphabet []int, totalFreq, scale int) {}
